@@ -56,4 +56,14 @@ META = {
   text="The structural part of both documents is one model function (tied separately to each emitter by C01/C04/C06). The dialect translation used by the checker is proved meaning-preserving and the 3.0/3.1 numeric-bound converters are proved equivalent under it; every run diffs the two real documents of the same IR after translation, member by member, with no model in the loop, so a change to one converter or emitter only is caught even where the model lags.",
   note="Known divergences are open findings (C11-F1..F4, C07-F1), each recognised by a signature; any other difference is a violation.",
  ),
+ "C08": dict(
+  technique="Lean 4 proof (decidable document checker proved sound w.r.t. the WellFormed predicate; validate-before-marshal/write order facts decided on call skeletons regenerated from source) + the checker run on the real documents",
+  text="The checker that runs on every emitted 3.0/3.1 document is proved to imply the property's well-formedness predicate ($ref closure, path parameters matched and required, unique parameter names, described responses, typed enum members, info/servers/schemes = config). 'Fails instead of writing an invalid document' is decided on the regenerated call/return skeletons of both emitters, the spec manager and the entry points: validation precedes marshalling and writing and its error is returned.",
+  note="Trusted: Lean kernel, standard axioms, JSON->Doc reader, the go/ast skeleton extractor, kin-openapi/libopenapi validation. Open finding C08-F1.",
+ ),
+ "C14": dict(
+  technique="Lean 4 proof (no validator rule can dereference a nil parse result: decided over the rule table regenerated from both converters; totality of every model function) + exploration of the real emitters/routers/CLI with malformed input",
+  text="Partial by nature: crash-freedom of the two validator-tag converters is a theorem over a table that a go/ast translator rebuilds from the converters on every run (an unchecked dereference flips a flag and breaks the proof); loops are total model functions. The rest (libraries, visitors) is explored: generated IR with malformed tags through the real emitters and routers, with panics, dead workers and timeouts reported as violations.",
+  note="Holds after fix 4ee7fb4 (nil checks in both converters).",
+ ),
 }
